@@ -17,8 +17,8 @@ TEXT_ALPHABET = ["a", "Z", "0", " ", "é", "€", "\U0001f600", "中"]
 
 def plan(tier: str) -> dict:
     return {
-        "runs": 6000 if tier == "quick" else 300000,
-        "budget": 70 if tier == "quick" else 900,
+        "runs": 8000 if tier == "quick" else 300000,
+        "budget": 150 if tier == "quick" else 900,
         "cases": _boundary_cases(),
         "chunk": 40,
         "rule": "WebSocket sessions over HTTP/1.1 upgrade and HTTP/2 extended CONNECT: 1..6 text/binary messages "
